@@ -140,6 +140,26 @@ func leakCheck(line, errText string) string {
 	switch f[0] {
 	case "ghotp", "vhotp", "gtotp", "vtotp", "gocra", "vocra":
 		secretText, _ = unhex(f[1])
+	case "urlp":
+		raw, _ := unhex(f[1])
+		if i := strings.Index(string(raw), "secret="); i >= 0 {
+			v := string(raw)[i+7:]
+			if j := strings.IndexAny(v, "&#"); j >= 0 {
+				v = v[:j]
+			}
+			if len(v) >= 8 && strings.Contains(errText, v) {
+				return "the secret parameter of the URL"
+			}
+		}
+		return ""
+	case "urlg":
+		if len(f) > 4 {
+			sec, _ := unhex(f[4])
+			if len(sec) >= 8 && strings.Contains(errText, string(sec)) {
+				return "the secret"
+			}
+		}
+		return ""
 	default:
 		return ""
 	}
@@ -423,6 +443,10 @@ func main() {
 				}
 			}
 		}
+		if model[i] == "unsupported" {
+			rep.ImplOutcomes["(model: unsupported shape, skipped)"]++
+			continue
+		}
 		ci, cm := canon(impl[i]), canon(model[i])
 		if spec[i] != "" {
 			rep.SpecDefined++
@@ -472,7 +496,7 @@ func main() {
 			break
 		}
 		m := &rep.Mismatches[i]
-		if m.Kind == "retained-string-changed" {
+		if m.Kind == "retained-string-changed" || strings.HasPrefix(m.Kind, "leak") {
 			continue
 		}
 		shrinkMismatch(self, *driver, m, lines)
@@ -511,19 +535,29 @@ func trunc(s string, n int) string {
 	return s
 }
 
-// specAgrees: the spec answer may end in " *" (a wildcard for the rest) and never carries error classes.
+// specAgrees: token-wise comparison; a spec token "*" matches any one token, a trailing "*" matches the rest;
+// "if-ok …" constrains the answer only when the implementation answered ok; error classes are not compared.
 func specAgrees(implCanon, spec string) bool {
 	sp := canon(spec)
 	if strings.HasPrefix(sp, "if-ok ") {
-		if !strings.HasPrefix(implCanon, "ok ") {
+		if !strings.HasPrefix(implCanon, "ok ") && implCanon != "ok" {
 			return true
 		}
 		sp = "ok " + strings.TrimPrefix(sp, "if-ok ")
 	}
-	if strings.HasSuffix(sp, " *") {
-		return strings.HasPrefix(implCanon, strings.TrimSuffix(sp, "*"))
+	st, it := strings.Fields(sp), strings.Fields(implCanon)
+	for i, t := range st {
+		if t == "*" && i == len(st)-1 {
+			return true
+		}
+		if i >= len(it) {
+			return false
+		}
+		if t != "*" && t != it[i] {
+			return false
+		}
 	}
-	return implCanon == sp
+	return len(st) == len(it)
 }
 
 // execFresh runs op lines in a fresh process (no history) and returns the implementation answers.
@@ -553,6 +587,9 @@ func stillMismatch(self, driver string, prefix []string, op string) (bool, strin
 		return false, "", ""
 	}
 	ci := canon(ia[len(ia)-1])
+	if m[0] == "unsupported" || m[0] == "bad-op" {
+		return false, "", ""
+	}
 	bad := ci != canon(m[0]) || (s[0] != "" && !specAgrees(ci, s[0]))
 	return bad, ia[len(ia)-1], m[0]
 }
